@@ -35,11 +35,11 @@ type LeafCfg struct {
 	ExecS  string `json:"execS"`
 	PostS  string `json:"postS"`
 	// harness-only hints (ignored by the Lean side)
-	Impl  string `json:"impl,omitempty"`  // for direct nodes with fb=custom & retryable: "base" | "plain"
+	Impl string `json:"impl,omitempty"` // for direct nodes with fb=custom & retryable: "base" | "plain"
 	// Of (harness only, with Impl "inner"): this node IS the *CustomNode wrapped by the NodeBuilder that is node `Of` — a Node in
 	// its own right (an exported field), a different node from the builder as far as a flow's table goes. Generated only where it
 	// is connected but never reached.
-	Of int `json:"of,omitempty"`
+	Of    int    `json:"of,omitempty"`
 	Build string `json:"build,omitempty"` // for function-style nodes: "option" | "builder" | "mixed"
 }
 
